@@ -118,6 +118,20 @@ class C03(Prop):
                 maxdim = max((max(nd.shape) if nd.shape else 1) for nd in drv.ttn.nodes.values())
                 modes = ["reduced", "keep"] + (["full"] if (small and maxdim <= 4) else [])
                 mode = rng.choice(modes)
+                if have_centre and rng.random() < 0.3:
+                    # modify a tensor (the recorded centre goes stale); the next operation must be
+                    # a full canonical_form, which has to cope with that
+                    ops = ops + [["scramble", rng.choice(ids), "none"], ["canon", c, mode]]
+                    continue
+                r = rng.random()
+                if r < 0.25:
+                    # the ensure_* entry points: canonical form when no centre is recorded, a move otherwise
+                    if rng.random() < 0.5:
+                        ops = ops + [["ensure", c, mode]]
+                    else:
+                        ops = ops + [["ensure_root", "n0", mode]]
+                    have_centre = True
+                    continue
                 kind = "move" if (have_centre and rng.random() < 0.6) else "canon"
                 ops = ops + [[kind, c, mode]]
                 have_centre = True
@@ -126,6 +140,17 @@ class C03(Prop):
             keep_seen = keep_seen or op[2] == "keep"
             shapes_before = shapes_by_neighbour(drv.ttn)
             ok, err = drv.apply(op)
+            if op[0] == "scramble":
+                applied.append(op)
+                t = drv.ttn
+                steps.append({"ok": ok, "err": err, "snap": snapshot(t), "raws": {k: np.array(v) for k, v in t._tensors.data.items()},
+                              "centre": t.orthogonality_center_id})
+                self._stats[f"scramble:{'ok' if ok else 'rejected'}"] += 1
+                if ok:
+                    dense0 = dense_by_tokens(t, tokens)     # a different state from here on
+                elif not viol:
+                    viol = f"{op} raised {err}"
+                continue
             applied.append(op)
             t = drv.ttn
             steps.append({"ok": ok, "err": err, "snap": snapshot(t), "raws": {k: np.array(v) for k, v in t._tensors.data.items()},
@@ -140,7 +165,8 @@ class C03(Prop):
             if w:
                 viol = f"after {op}: {w}"
                 continue
-            if t.orthogonality_center_id != op[1]:
+            want = t.root_id if op[0] == "ensure_root" else op[1]
+            if t.orthogonality_center_id != want:
                 viol = f"after {op}: recorded centre is {t.orthogonality_center_id}"
                 continue
             d = dense_by_tokens(t, tokens)
@@ -150,7 +176,7 @@ class C03(Prop):
                 continue
             # tensors off the path of a move keep the attribute an earlier operation gave them:
             # once a shape-keeping operation has happened they may be zero-padded partial isometries
-            defect = isometry_defects(t, op[1], keep_seen)
+            defect = isometry_defects(t, want, keep_seen)
             if defect > 1e-8:
                 viol = f"after {op}: some tensor is not a{' partial' if keep_seen else 'n'} isometry toward the centre (defect {defect:.2e}; partial isometries accepted: {keep_seen})"
                 continue
@@ -223,7 +249,7 @@ class C03(Prop):
                 return f"step {j} {op}: {d}"
             if (st["centre"] or None) != (mcen[0] if mcen else None):
                 return f"step {j} {op}: centre impl {st['centre']} model {mcen}"
-            if op[0] in ("canon", "move") and mok:
+            if op[0] in ("canon", "move", "ensure", "ensure_root") and mok:
                 self._iso[0] += 1
                 if miso:
                     self._iso[1] += 1
